@@ -46,6 +46,11 @@ CHECKS["C11"] = dict(
    text="Generated-input search with a reference model: for generated tables, key dtypes, join shapes (1-1, n-n, 1-n, n-1), chains and cycles, and selections evaluable on one dataset or none, the mask on every queried dataset must be one the model admits (key membership by value through any joined neighbour), or IncompatibleAttribute when nobody can evaluate it; earlier evaluations (including incompatible ones) on other datasets precede the read, and the recursion guard must be left clear.",
    note="Trusted: the join model in pbt/props/c11.py; any qualifying neighbour's answer is accepted; NaN keys and string/number mixed joins are not generated.",
    ref="DESIGN.md section 4 C11")
+CHECKS["C03"] = dict(
+   technique="stateful model-based testing (Hypothesis op lists): DataCollection link histories vs. an independent link-closure reference model",
+   text="History search with a reference model: generated sequences of add/remove link (one-way, two-way, identity, two-input, LinkSame, LinkTwoWay), add/remove component, append/remove/re-append dataset, with delay blocks, run on a real DataCollection and on a model that computes, per dataset, the least-fixpoint reachable set and the admissible values along minimum-depth chains; after every step reachable sets, values, selections on linked attributes, incompatibility of unreachable ones and the link registry must agree.",
+   note="Trusted: the closure model in pbt/props/c03.py; exact arithmetic link functions; same link object never registered twice; no key joins.",
+   ref="DESIGN.md section 4 C03")
 NOT_APPLICABLE = []
 
 def main():
